@@ -313,6 +313,9 @@ Definition task_ok (P : program) (ids : list tid) (t : tid) : bool :=
       && forallb (fun e => let '(ft, s, fs) := e in
                            mem s ids && Nat.eqb (ecount (fs, t, ft) (pred_edges P s)) (ecount e (succ_edges P t)))
                  (succ_edges P t)
+      (* the same with the flows forgotten: multiplicities of p -> t agree in succs p and preds t *)
+      && forallb (fun p => mem p ids && Nat.eqb (count t (succs P p)) (count p (preds P t))) (preds P t)
+      && forallb (fun s => mem s ids && Nat.eqb (count t (preds P s)) (count s (succs P t))) (succs P t)
   end.
 
 Definition wf_program (P : program) : bool :=
